@@ -143,7 +143,8 @@ pub fn check(sc: &Scenario, res: &RunResult) -> Vec<Violation> {
             continue;
         }
         let m = hits[0];
-        if m.size as u64 != size {
+        // the size field is 32 bits wide: an extent it cannot hold is recorded as the largest value
+        if m.size as u64 != size.min(u32::MAX as u64) {
             out.push(v("C08", "module-extent", format!("{}: size {:#x}, merged extent {:#x}", String::from_utf8_lossy(&g.name), m.size, size)));
         }
         let mut want_cv = 0x4270_454cu32.to_le_bytes().to_vec();
